@@ -257,20 +257,10 @@ class FleetStore(Store):
             # 4) Drop the event token
             self.reserved_events.pop(ev_idx)
 
-            # 5) Remove it from ready_items wherever it currently is
-            try:
-                self.ready_items.remove(item)
-            except ValueError:
+            # 5) The released item keeps its place in ready_items, so it is
+            #    served again ahead of every item that became ready after it.
+            if not any(item is ready for ready in self.ready_items):
                 raise RuntimeError(f"Item {item!r} not found in ready_items during cancel.")
-
-            # 6) Compute new insertion index
-            # "FIFO":
-                # one slot before the remaining reserved block
-            insert_idx = len(self.ready_items) - len(self.reserved_events) - 1
-            
-
-            # 7) Re‑insert it
-            self.ready_items.insert(insert_idx, item)
 
             # 8) Trigger any other pending reservations
             self._trigger_reserve_get(None)
@@ -426,9 +416,15 @@ class FleetStore(Store):
             We pick the j-th from top (for LIFO) or bottom (for FIFO)
             but do NOT remove it yet—we just record the exact item.
             """
-            j = len(self.reserved_events)
-            #if self.mode == "FIFO":
-            item = self.ready_items[j]
+            # bind the earliest ready item that is not already bound to
+            # another outstanding reservation
+            free_items = list(self.ready_items)
+            for reserved in self.reserved_items:
+                for i, candidate in enumerate(free_items):
+                    if candidate is reserved:
+                        del free_items[i]
+                        break
+            item = free_items[0]
             #else:  # LIFO
             #   item = self.ready_items[-1 - j]
 
